@@ -157,8 +157,15 @@ def run(ctx):
         for fmt in RENDERINGS:
             wins = [(None, None, "none")]
             for _ in range(nwin if fmt in ("export", "cat", "short") else ctx.pick(8, 30)):
-                k = rng.choice(["on", "on", "a=b", "minus1us", "plus1us", "between", "empty", "a-only-on", "b-only-on"])
+                k = rng.choice(["on", "on", "a=b", "minus1us", "plus1us", "between", "empty", "a-only-on", "b-only-on", "a-before-1970", "b-before-1970"])
                 x, y = sorted([rng.choice(rts), rng.choice(rts)])
+                if k == "a-before-1970":
+                    # a bound before the Unix Epoch lies before every entry
+                    wins.append((-rng.choice([1, 86_400_000_000, 40 * 365 * 86_400_000_000]), rng.choice([None, y]), k))
+                    continue
+                if k == "b-before-1970":
+                    wins.append((None, -rng.choice([1, 86_400_000_000, 40 * 365 * 86_400_000_000]), k))
+                    continue
                 if k == "a=b":
                     y = x
                 elif k == "minus1us":
